@@ -50,7 +50,7 @@ SHARD_TIMEOUT = {"quick": 600, "thorough": 5400}
 PROFILE = dict(undefined_init=0.04, invariants=0.12, interpreted_functions=0.0, int_params=0.15, max_actions=3)
 BOUNDS = {
     "quick": dict(n=400, k=4, plans=14, node_cap=2500, lin_cap=5000),
-    "thorough": dict(n=3000, k=5, plans=30, node_cap=12000, lin_cap=5000),
+    "thorough": dict(n=9000, k=5, plans=30, node_cap=12000, lin_cap=5000),
 }
 
 
